@@ -40,6 +40,10 @@ pub enum Finish {
     Panic,
     /// into_writer, write nothing, drop the writer (no message at all for this request)
     WriterNothing,
+    /// respond with a body whose reader fails after `fail_after` bytes: io::Error(Other), or a
+    /// (marker) panic inside the reader. The application's own fault; what matters is that the
+    /// library does not add a second response for the request.
+    RespondBrokenBody { declared: bool, body_len: usize, fail_after: usize, panic: bool },
 }
 
 #[derive(Clone, Debug)]
@@ -88,6 +92,7 @@ impl ReqPlan {
             Finish::Upgrade { .. } => "upgrade",
             Finish::Panic => "panic",
             Finish::WriterNothing => "writer-nothing",
+            Finish::RespondBrokenBody { .. } => "respond-broken-body",
         }
     }
     pub fn read_label(&self, body_len: usize) -> &'static str {
@@ -432,6 +437,40 @@ pub fn execute_plan(mut rq: Request, plan: &ReqPlan, rec: &Arc<Mutex<Delivered>>
             let w = lib(|| rq.into_writer());
             lib(|| drop(w));
         }
+        Finish::RespondBrokenBody { declared, body_len, fail_after, panic } => {
+            struct Broken {
+                left: usize,
+                panic: bool,
+            }
+            impl Read for Broken {
+                fn read(&mut self, buf: &mut [u8]) -> std::io::Result<usize> {
+                    if self.left == 0 {
+                        if self.panic {
+                            panic!("{}", PANIC_MARKER);
+                        }
+                        return Err(std::io::Error::new(std::io::ErrorKind::Other, "application body reader failed"));
+                    }
+                    let n = buf.len().min(self.left).min(700);
+                    for b in buf[..n].iter_mut() {
+                        *b = b'x';
+                    }
+                    self.left -= n;
+                    Ok(n)
+                }
+            }
+            let resp = Response::new(
+                StatusCode(200),
+                vec![Header::from_bytes(&b"X-K"[..], k.to_string().as_bytes()).unwrap()],
+                Broken { left: *fail_after, panic: *panic },
+                if *declared { Some(*body_len) } else { None },
+                None,
+            );
+            let r = std::panic::catch_unwind(std::panic::AssertUnwindSafe(|| lib(|| rq.respond(resp))));
+            match r {
+                Ok(Ok(())) => ferr = Some("respond returned Ok although the body reader failed".into()),
+                Ok(Err(_)) | Err(_) => {}
+            }
+        }
         Finish::Panic => {
             {
                 let mut r = rec.lock().unwrap();
@@ -589,11 +628,50 @@ pub struct ConvApp {
     pub cv: Condvar,
     pub handlers_started: AtomicUsize,
     pub handlers_finished: Arc<AtomicUsize>,
+    /// the "/v/<id>/" and "/smuggled/<id>/" tags that occur in this conversation's bytes
+    pub wire_tags: Vec<Vec<u8>>,
+}
+
+/// "/v/<hex>/" or "/smuggled/<hex>/" at the start of a target: the tag of the conversation that
+/// generated it.
+fn url_tag(u: &[u8]) -> Option<&[u8]> {
+    for pre in [&b"/v/"[..], &b"/smuggled/"[..]] {
+        if u.starts_with(pre) {
+            let rest = &u[pre.len()..];
+            let n = rest.iter().take_while(|b| b.is_ascii_hexdigit()).count();
+            if n > 0 && rest.get(n) == Some(&b'/') {
+                return Some(&u[..pre.len() + n + 1]);
+            }
+        }
+    }
+    None
+}
+
+fn wire_tags(wire: &[u8]) -> Vec<Vec<u8>> {
+    let mut v: Vec<Vec<u8>> = Vec::new();
+    for i in 0..wire.len() {
+        if wire[i] == b'/' {
+            if let Some(t) = url_tag(&wire[i..(i + 40).min(wire.len())]) {
+                if !v.iter().any(|x| x == t) {
+                    v.push(t.to_vec());
+                }
+            }
+        }
+    }
+    v
 }
 
 impl CaseApp for ConvApp {
     fn accepts(&self, port: u16, rq: &Request) -> bool {
         if self.unix {
+            // no peer address on this transport: a request left over from an earlier, abandoned
+            // conversation (it timed out, or was closed with requests still unparsed) is told
+            // apart by the conversation tag in its target
+            if let Some(t) = url_tag(rq.url().as_bytes()) {
+                if !self.wire_tags.iter().any(|x| x == t) {
+                    return false;
+                }
+            }
             !crate::env::is_control(rq)
         } else {
             port == self.port
@@ -811,6 +889,7 @@ pub fn run_conv(env: &Env, case: &ConvCase) -> ConvObs {
         cv: Condvar::new(),
         handlers_started: AtomicUsize::new(0),
         handlers_finished: fin.clone(),
+        wire_tags: if case.unix { wire_tags(&case.wire) } else { Vec::new() },
     });
     env.set_app(Some(app.clone()));
     let cal = CalWindow::open();
